@@ -895,6 +895,10 @@ func (c *Ctx) ruleRecordFromOwnLine(id string, authPkg string) {
 				bad := ""
 				// the appended elements: the varargs slice's backing array elements
 				depReaches(cv.Call.Args[1], func(v ssa.Value) bool {
+					if al, isAl := v.(*ssa.Alloc); isAl && al.Parent() == f && loopCarriedCell(al, l, cv) {
+						bad = "the record appended is (built from) the variable " + al.Comment + " declared outside the loop and only partly rewritten inside it: a field not set for the current line keeps the value of an earlier line"
+						return false
+					}
 					phi, ok := v.(*ssa.Phi)
 					if !ok || phi.Block() != l.Header {
 						return false
